@@ -19,7 +19,12 @@ SubstClauses == {sv \o c \o t : c \in {<<SP, LPAREN, GT, EQ, SP, 49, DOT, 48, RP
 Degenerate == {foo \o <<SP, LBRACK, HYPHEN, HYPHEN, RBRACK>>, foo \o <<SP, LBRACK, HYPHEN, HYPHEN, SP>> \o amd64 \o <<RBRACK>>,
                foo \o <<COLON, HYPHEN, HYPHEN>>, foo \o <<SP, LBRACK, HYPHEN, RBRACK>>, foo \o <<SP, LBRACK, BANG, HYPHEN, HYPHEN, RBRACK>>,
                foo \o <<SP, LBRACK>> \o amd64 \o <<HYPHEN, HYPHEN, RBRACK>>} \cup SubstClauses
-DepVecs == {[k |-> Kind, text |-> t] : t \in Texts \cup Degenerate}
+\* two names with nothing but white space between them (no comma, no bar), alone and after a proper entry; a name
+\* followed by a closing bracket of any kind, or by a character no clause starts with
+bar == <<98, 97, 114>>
+Juxta == {pre \o foo \o sep \o bar : pre \in {<<>>, <<113, COMMA, SP>>}, sep \in {<<SP>>, <<TAB>>, <<LF>>, <<CR>>, <<LF, TAB>>, <<SP, TAB, SP>>, <<LF, SP>>}}
+         \cup {foo \o c : c \in {<<RBRACK>>, <<RPAREN>>, <<GT>>, <<RBRACE>>, <<EQ, 49>>, <<BANG>>, <<59>>, <<TAB, RPAREN>>, <<LF, RBRACK>>}}
+DepVecs == {[k |-> Kind, text |-> t] : t \in Texts \cup Degenerate \cup Juxta}
 
 \* ---- architecture names (C05) ------------------------------------------------
 bKf == <<107, 102, 114, 101, 101, 98, 115, 100>>  bMusl == <<109, 117, 115, 108>>
